@@ -224,7 +224,8 @@ const srcShims = `({
       R1: new Error("r1"), R2: new TypeError("r2"), R3: new MyErr("r3"),
       G1: G1, G3: G3, G4: G4, G6: G6, V1: {value: E1v}, V2: {value: 42},
       U1: {toString: function() { throw new Error("inner"); }}, U2: Object.create(null),
-      U3: {toString: function() { intr(); for (;;) {} }}};
+      U3: {toString: function() { intr(); for (;;) {} }},
+      P5: Symbol("s"), P6: 10n, O2: function thrownFn() {}, O3: new Proxy({}, {}), O4: [1, 2]};
   }
 })`
 
@@ -324,7 +325,7 @@ func (c *caseT) shim(name string, args ...goja.Value) goja.Value {
 	return c.must(f(goja.Undefined(), args...))
 }
 
-var valOrder = []string{"P1", "P2", "P3", "P4", "O1", "R1", "R2", "R3", "G1", "G3", "G4", "G6", "V1", "V2", "U1", "U2", "U3"}
+var valOrder = []string{"P1", "P2", "P3", "P4", "O1", "R1", "R2", "R3", "G1", "G3", "G4", "G6", "V1", "V2", "U1", "U2", "U3", "P5", "P6", "O2", "O3", "O4"}
 
 func (c *caseT) ensureVals() {
 	if c.valsOk {
